@@ -773,6 +773,28 @@ fn c04_eval(c: &C04Case, r: &mut Report) {
             if is_plaintext_error(e) {
                 r.violation(format!("C04 plaintext-error-under-other-key {} err={}", tag, e), format!("{}: wrong key produced {} — plaintext was handled without authentication", tag, e), json!({"cmd": "C04", "case": c}));
             }
+            // a rejection must stay a rejection: the same wrong key is presented again at once (every key that was refused
+            // before the cryptographic check - unusable key material - and every third other one; the signer's own key was
+            // used on this thread just before, so whatever a failed call left behind is what the second call finds)
+            let key_trouble = e.contains("InvalidKey") || e.contains("KeyRejected") || e.contains("KeyCtor") || e.contains("Key");
+            if key_trouble || r.evaluations % 3 == 0 {
+                r.evaluations += 1;
+                // ... with the signer's own key used in between (right, wrong, wrong): the state a verifier keeps from its last
+                // good call is then the signer's, which is the state worth stealing
+                if !open_any(c.layer, c.p, &c.key, &c.token, c.footer.as_deref(), c.ia.as_deref()).is_ok() {
+                    r.count(&format!("{} base token not opened under its own key in a right-wrong-wrong sequence (C01/C02's domain)", tag));
+                }
+                let _ = open_any(c.layer, c.p, &c.key2, &c.token, c.footer.as_deref(), c.ia.as_deref());
+                match open_any(c.layer, c.p, &c.key2, &c.token, c.footer.as_deref(), c.ia.as_deref()) {
+                    Out::Ok(x) => r.violation(
+                        format!("C04 accepted-under-other-key-on-second-presentation {} class={}", tag, c.class),
+                        format!("{}: token produced under key {} was refused ({}) under a different key {} (class {}) and ACCEPTED when the same key was presented again, returning {:?}", tag, util::hex(&key_bytes(c.p, &c.key)), e, util::hex(&key_bytes(c.p, &c.key2)), c.class, util::clip(&x, 60)),
+                        json!({"cmd": "C04", "case": c}),
+                    ),
+                    Out::Panic(loc) => r.violation(format!("C04 panic {} class={}", tag, c.class), format!("{}: panic under a different key (second presentation): {}", tag, loc), json!({"cmd": "C04", "case": c})),
+                    Out::Err(_) => r.count(&format!("{} rejected again on a second presentation{}", tag, if key_trouble { " (unusable key material)" } else { "" })),
+                }
+            }
         }
     }
     if r.samples.len() < 8 && r.evaluations % 499 == 3 {
@@ -916,7 +938,7 @@ pub fn replay_c04(case: &Value) -> Report {
     r
 }
 
-pub const RULE_C04: &str = "per protocol 24 (thorough 1500) authentic tokens built at core/generic/batteries layer (footer none/text/empty, assertion none/text) are presented at the same layer under every single-bit neighbour of the key (all 256 bits of symmetric and Ed25519 public keys, all 392 bits of the compressed P-384 point, all bits of the RSA public-key DER), all-zero, all-one, 50 random (1500 for local tokens whose plaintext is 0-2 bytes, incl. the claim-less '{}' of the generic builder: garbage from an unauthenticated decryption is well-formed only when short), rotated/reversed/half-zeroed keys, every other pool key, and for v3.public the ECDSA 'duplicate-signature' keys recovered from the token's own signature over the specified digest and over five binding-free digest variants (the signer's key must be the only recovered key that is accepted); ONE builder object building under key1, key2, (unusable key material,) key1, ... (each token opens under the key it was built with and under no other, also after a build that failed); NESTED parser pairs (160, thorough 2000: a second parser object of any protocol/layer is created, used and dropped in the middle of another parser's session on the same thread; both must answer as they do alone); parser sessions incl. LONG ones (one parser object, 3000 (thorough 20000-70000) parses of right-key / other-key / one-character-changed presentations of 300 distinct tokens in a seeded order); oracle: any Ok under another key is a violation (a key that fails to parse counts as 'fails'); distinct_nontrivial = distinct (protocol, layer, key class, rejection variant)";
+pub const RULE_C04: &str = "per protocol 24 (thorough 1500) authentic tokens built at core/generic/batteries layer (footer none/text/empty, assertion none/text) are presented at the same layer under every single-bit neighbour of the key (all 256 bits of symmetric and Ed25519 public keys, all 392 bits of the compressed P-384 point, all bits of the RSA public-key DER), all-zero, all-one, 50 random (1500 for local tokens whose plaintext is 0-2 bytes, incl. the claim-less '{}' of the generic builder: garbage from an unauthenticated decryption is well-formed only when short), rotated/reversed/half-zeroed keys, every other pool key, and for v3.public the ECDSA 'duplicate-signature' keys recovered from the token's own signature over the specified digest and over five binding-free digest variants (the signer's key must be the only recovered key that is accepted); ONE builder object building under key1, key2, (unusable key material,) key1, ... (each token opens under the key it was built with and under no other, also after a build that failed); NESTED parser pairs (160, thorough 2000: a second parser object of any protocol/layer is created, used and dropped in the middle of another parser's session on the same thread; both must answer as they do alone); parser sessions incl. LONG ones (one parser object, 3000 (thorough 20000-70000) parses of right-key / other-key / one-character-changed presentations of 300 distinct tokens in a seeded order); every key refused as unusable and every third other wrong key is presented again in a right-key, wrong-key, wrong-key sequence (a rejection must stay a rejection, whatever the verifier keeps from its last good call); oracle: any Ok under another key is a violation (a key that fails to parse counts as 'fails'); distinct_nontrivial = distinct (protocol, layer, key class, rejection variant)";
 
 // ==========================================================================================
 // C05
